@@ -20,6 +20,10 @@ CHECKS = {
   text="Same executor and table family as C01, error side of lookup_route: for every unmatched request the status is 405 iff the request's path is served at the request's version for some other method, else 404; a 405's Allow header lists exactly (no duplicates, nothing else) the methods served at that path and version, including methods contributed by a wildcard child matching the empty remainder and methods with several version ranges; 404 carries no Allow. Witness for each (status, Allow) class replayed natively.",
   note="As C01. HttpError::{for_client_error_with_status,for_not_found,add_header,headers_mut} run from MIR; HeaderMap/HeaderName/HeaderValue are models.",
   tech="symbolic execution of MIR + SMT against a reference matcher; native replay", ref="DESIGN.md §5 C04"),
+ "C03": dict(
+  text="router::input_path_to_segments and its closures executed from MIR on a raw request path of N symbolic bytes (every length 0..8 quick / 0..10 thorough, every byte 0x01..0xFF) and compared path by path with a reference normaliser (split on '/', drop empty pieces, percent-decode each piece exactly once, refuse '.'/'..' after decoding and invalid UTF-8) whose branches are decided by the solver under the path condition; then lookup_route with the real normaliser on wildcard and variable routes followed by the MapValue accessors the Path extractor uses (as_value/as_seq): handlers receive exactly the reference's segments, never '', '.' or '..', and a segment error is a 400. Counterexamples replayed through lookup_route and a loop-back server.",
+  note="Bounded by raw path length (stated in evidence). Trusted: models of str::split/filter/map/collect and of percent_encoding::percent_decode_str(..).decode_utf8() (props/strmodel.py), validated against the real crate on a fixed corpus and on every replayed model. Outside: what hyper/http::Uri accept as a request target. The equal-treatment-of-extra-slashes clause follows from equality with the reference (which ignores empty pieces) rather than from a separate relational query.",
+  tech="symbolic execution of MIR over bounded symbolic byte strings + SMT; reference executed under the path condition; native replay", ref="DESIGN.md §5 C03"),
 }
 NA_DEFAULT = "check under construction in this round (see DESIGN.md §5/§7); not yet claimed"
 NA = {}
